@@ -145,6 +145,66 @@ fn inputs_mut_of(t: &mut Transaction) -> Option<&mut Vec<Input>> {
     }
 }
 
+fn outputs_mut_of(t: &mut Transaction) -> Option<&mut Vec<Output>> {
+    match t {
+        Transaction::Script(x) => Some(x.outputs_mut()),
+        Transaction::Create(x) => Some(x.outputs_mut()),
+        Transaction::Mint(_) => None,
+        Transaction::Upgrade(x) => Some(x.outputs_mut()),
+        Transaction::Upload(x) => Some(x.outputs_mut()),
+        Transaction::Blob(x) => Some(x.outputs_mut()),
+    }
+}
+
+fn witnesses_mut_of(t: &mut Transaction) -> Option<&mut Vec<Witness>> {
+    match t {
+        Transaction::Script(x) => Some(x.witnesses_mut()),
+        Transaction::Create(x) => Some(x.witnesses_mut()),
+        Transaction::Mint(_) => None,
+        Transaction::Upgrade(x) => Some(x.witnesses_mut()),
+        Transaction::Upload(x) => Some(x.witnesses_mut()),
+        Transaction::Blob(x) => Some(x.witnesses_mut()),
+    }
+}
+
+/// Simpler versions of one transaction (for the minimiser): fewer inputs / outputs / witnesses.
+fn simpler_txs(item: &TxItem) -> Vec<TxItem> {
+    let Some(t) = decode_tx(item) else { return Vec::new() };
+    let mut out = Vec::new();
+    let mut push = |f: &dyn Fn(&mut Transaction) -> bool| {
+        let mut c = t.clone();
+        if f(&mut c) {
+            out.push(encode_tx(&c, item.precompute, item.recheck));
+        }
+    };
+    let (ni, no, nw) = (inputs_of(&t).len(), outputs_of(&t).len(), witnesses_of(&t).len());
+    if ni > 0 {
+        push(&|c| inputs_mut_of(c).map(|v| v.clear()).is_some());
+    }
+    if no > 0 {
+        push(&|c| outputs_mut_of(c).map(|v| v.clear()).is_some());
+    }
+    if nw > 0 {
+        push(&|c| witnesses_mut_of(c).map(|v| v.clear()).is_some());
+    }
+    if ni > 1 {
+        for i in (0..ni).rev() {
+            push(&|c| inputs_mut_of(c).map(|v| drop(v.remove(i))).is_some());
+        }
+    }
+    if no > 1 {
+        for i in (0..no).rev() {
+            push(&|c| outputs_mut_of(c).map(|v| { v.remove(i); }).is_some());
+        }
+    }
+    if nw > 1 {
+        for i in (0..nw).rev() {
+            push(&|c| witnesses_mut_of(c).map(|v| drop(v.remove(i))).is_some());
+        }
+    }
+    out
+}
+
 fn decode_tx(item: &TxItem) -> Option<Transaction> {
     let bytes = hex::decode(&item.tx).ok()?;
     let mut t = Transaction::from_bytes(&bytes).ok()?;
@@ -1147,6 +1207,14 @@ impl Engine for Da {
         }
         if sc.chain_id != 0 {
             out.push(with(&|s| s.chain_id = 0));
+        }
+        // Last: simplify the transactions themselves once the stream is short.
+        if n <= 4 {
+            for i in 0..n {
+                for simpler in simpler_txs(&sc.txs[i]) {
+                    out.push(with(&|s| s.txs[i] = simpler.clone()));
+                }
+            }
         }
         out
     }
